@@ -83,6 +83,9 @@ EpOf(file) == LET defd == {b \in 1..Len(file.blocks) : file.blocks[b].ep # UNDEF
               IN IF defd = {} THEN UNDEF
                  ELSE file.blocks[CHOOSE b \in defd : \A c \in defd : b <= c].ep
 
+\* the file is presented through an iterator without a file_size function: `filesize` is undefined for this scan
+NoFs(file) == "nofs" \in DOMAIN file /\ file.nofs
+
 ETruth(c, r, file, V) ==      \* V: verdicts of the earlier rules; result TRUE / FALSE (undefined counts as FALSE)
   CASE c.k = "T"     -> TRUE
     [] c.k = "F"     -> FALSE
@@ -93,13 +96,13 @@ ETruth(c, r, file, V) ==      \* V: verdicts of the earlier rules; result TRUE /
     [] c.k = "NRef"  -> ~V[c.a]
     [] c.k = "EP"    -> EpOf(file) # UNDEF
     [] c.k = "EPV"   -> EpOf(file) = c.a
-    [] c.k = "FS"    -> file.size = c.a
-    [] c.k = "U8"    -> file.u8
+    [] c.k = "FS"    -> ~NoFs(file) /\ file.size = c.a
+    [] c.k = "U8"    -> ~NoFs(file) /\ file.u8          \* uint8(filesize - 3)
     [] c.k = "Undef" -> FALSE
     [] c.k = "Mod"   -> TRUE
     [] c.k = "PeSec" -> file.pesec
     [] c.k = "Ext"   -> file.ext = c.a
-    [] c.k = "Hash"  -> file.id = c.a          \* hash.md5(0, filesize) == digest of file c.a (distinct files have distinct digests)
+    [] c.k = "Hash"  -> ~NoFs(file) /\ file.id = c.a          \* hash.md5(0, filesize) == digest of file c.a (distinct files have distinct digests)
 
 \* condition value of every rule on a clean scanner (rule references see the condition value only)
 EConds(file) ==
@@ -180,12 +183,12 @@ MTruth(c, i) ==
     [] c.k = "EP"    -> entryPoint # UNDEF
     [] c.k = "EPV"   -> entryPoint = c.a
     [] c.k = "FS"    -> fileSize = c.a
-    [] c.k = "U8"    -> cur.file.u8
+    [] c.k = "U8"    -> fileSize # UNDEF /\ cur.file.u8
     [] c.k = "Undef" -> FALSE
     [] c.k = "Mod"   -> ModTests \in DOMAIN modules
     [] c.k = "PeSec" -> ModPe \in DOMAIN modules /\ modules[ModPe].pesec
     [] c.k = "Ext"   -> cur.file.ext = c.a
-    [] c.k = "Hash"  -> ModHash \in DOMAIN modules /\ cur.file.id = c.a      \* computed from the bytes of THIS scan, cached per scan
+    [] c.k = "Hash"  -> ModHash \in DOMAIN modules /\ fileSize # UNDEF /\ cur.file.id = c.a      \* computed from the bytes of THIS scan, cached per scan
 
 \* D9 (ModelD9): once an iterator call made by rule evaluation was answered not-ready, a value read through the
 \* iterator (uintN, module fields parsed from the data) may be undefined instead
@@ -286,7 +289,7 @@ BlockDone ==
 IterNull ==                     \* end of blocks: file size is taken, rule evaluation starts
   /\ phase = "blocks" /\ ~HasBlock
   /\ iterErr' = "ok"
-  /\ fileSize' = IF cur.mode = "blocksnofs" THEN UNDEF ELSE cur.file.size
+  /\ fileSize' = IF cur.mode = "blocksnofs" \/ NoFs(cur.file) THEN UNDEF ELSE cur.file.size
   /\ phase' = "exec"
   /\ UNCHANGED <<rs, cur, flags, timeout, matches, reqEval, ruleFlags, nsUnsat, disabled, notebook, leaked,
                  entryPoint, modules, execNR, cb, ret>>
